@@ -1,5 +1,8 @@
 import Flowjaxv.Driver.Util
 import Flowjaxv.Model.ToBij
+import Flowjaxv.Model.ToDist
+import Flowjaxv.Gen.Misc
+import Flowjaxv.Prelude.Stats
 /-!
 Driver ops for expression trees of scalar bijections built from the generated leaves and the
 generated `Chain` / `Invert`:
@@ -13,7 +16,8 @@ generated `Chain` / `Invert`:
 namespace Drv
 open Gen
 
-abbrev SB := Bij Float Unit Float
+/-- scalar bijections conditioned on one float (unconditional leaves ignore it) -/
+abbrev SB := Bij Float Float Float
 
 partial def parseTree : List String → Except String (SB × List String)
   | "A" :: loc :: scale :: r => do
@@ -24,6 +28,11 @@ partial def parseTree : List String → Except String (SB × List String)
   | "P" :: r => pure (SoftPlus.toBij, r)
   | "T" :: r => pure (Tanh.toBij, r)
   | "ID" :: r => pure (Bij.id, r)
+  | "AC" :: w :: b :: r => do
+      let w ← parseF w
+      let b ← parseF b
+      let p : AdditiveCondition Float Float := { module := fun c => Float.tanh (w * c + b) }
+      pure (⟨p.transform, p.inverse, p.transform_and_log_det, p.inverse_and_log_det⟩, r)
   | "K" :: m :: r => do pure ((LeakyTanh.init (← parseF m)).toBij, r)
   | "Q" :: lo :: hi :: xs :: ys :: ds :: r => do
       let p : RationalQuadraticSpline Float :=
@@ -46,12 +55,13 @@ partial def parseTree : List String → Except String (SB × List String)
   | t :: _ => .error s!"bad tree token {t}"
   | [] => .error "unexpected end of tree"
 
-def applyM (b : Bij X Unit Float) (m : String) (x : X) (sh : X → String) : Except String String :=
+def applyM (b : Bij X Float Float) (m : String) (x : X) (sh : X → String) (cond : Float := 0) :
+    Except String String :=
   match m with
-  | "t" => pure (sh (b.fwd x ()))
-  | "i" => pure (sh (b.inv x ()))
-  | "tl" => let r := b.fwdLd x (); pure s!"{sh r.1} {showF r.2}"
-  | "il" => let r := b.invLd x (); pure s!"{sh r.1} {showF r.2}"
+  | "t" => pure (sh (b.fwd x cond))
+  | "i" => pure (sh (b.inv x cond))
+  | "tl" => let r := b.fwdLd x cond; pure s!"{sh r.1} {showF r.2}"
+  | "il" => let r := b.invLd x cond; pure s!"{sh r.1} {showF r.2}"
   | _ => .error "method"
 
 def tree : Handler
@@ -74,5 +84,44 @@ def vtree : Handler
       if !rest.isEmpty then .error "trailing tokens"
       applyM (Bij.elementwise bs) m (← parseFs xs) showFs
   | _ => .error "bad vtree op"
+
+/-- `ctree <m> <cond> <x> <expr…>`: as `tree`, with a scalar condition (leaf `AC w b` = AdditiveCondition with
+`module c = tanh(w·c+b)`). -/
+def ctree : Handler
+  | m :: cond :: x :: toks => do
+      let (b, rest) ← parseTree toks
+      if !rest.isEmpty then .error "trailing tokens"
+      applyM b m (← parseF x) showF (← parseF cond)
+  | _ => .error "bad ctree op"
+
+private partial def parseTrees (k : Nat) (r : List String) (acc : List SB) : Except String (List SB × List String) :=
+  match k with
+  | 0 => pure (acc.reverse, r)
+  | k + 1 => do
+      let (b, r) ← parseTree r
+      parseTrees k r (b :: acc)
+
+/-- standard normal base whose "key" is the base sample itself -/
+def stdNormalBase : Distn Float Float Float Float :=
+  (Gen.DistCore.mk (fun k _ => k) (fun x _ => Stats.normLogpdf x)).toDist
+
+/-- `tdist <nest|merge> <lp|s|slp> <cond> <arg> <n> <expr…>×n` — nested transformed distributions over a standard
+normal base (`nest`), or their `merge_transforms` form (`merge`); `arg` is the point (lp) or the base sample (s, slp). -/
+def tdist : Handler
+  | form :: what :: cond :: arg :: n :: toks => do
+      let (bs, rest) ← parseTrees (← parseNat n) toks []
+      if !rest.isEmpty then .error "trailing tokens"
+      let d ← match form with
+        | "nest" => pure (nestTransformed stdNormalBase bs)
+        | "merge" => pure (mergeTransforms stdNormalBase bs)
+        | _ => .error "form"
+      let c ← parseF cond
+      let a ← parseF arg
+      match what with
+      | "lp" => pure (showF (d.logProb a c))
+      | "s" => pure (showF (d.sample a c))
+      | "slp" => let r := d.sampleLp a c; pure s!"{showF r.1} {showF r.2}"
+      | _ => .error "what"
+  | _ => .error "bad tdist op"
 
 end Drv
